@@ -1803,6 +1803,15 @@ class Interp:
         if isinstance(fn, ExcClass):
             return ExcV(fn.name, tuple(args))
         if isinstance(fn, ExternalV):
+            c = self.world.contracts.get(fn.qual)
+            if c is not None:
+                names = list(c.args)
+                vars_ = dict(zip(names, args))
+                vars_.update(kwargs)
+                missing = [n for n in names if n not in vars_]
+                if missing:
+                    raise EngineError(f"call of {fn.qual}: contract needs arguments {missing}")
+                return c.apply_modular(self, None, NS(vars=vars_))
             return self.B.call_external(self, fn.qual, args, kwargs)
         h = getattr(fn, "call", None)
         if h:
